@@ -35,6 +35,18 @@ func mantText(v cty.Value) string {
 }
 
 func c02Deep(ctx *Ctx) {
+	// --- regression case: the recorded HasElement miss (C03 hash-coherence root cause), deterministically ------------
+	{
+		ms := []cty.Value{cty.NumberIntVal(0), cty.NumberFloatVal(0.5), cty.NumberFloatVal(3.9477794105)}
+		probe := cty.MustParseNumberVal("3.9477794105")
+		ctx.Eval("sethas-regression "+encVal(probe), true)
+		ctx.Tag("d02:haselement-hash-regression")
+		c02HasElementRef(ctx, cty.SetVal(ms), ms, probe)
+		// whole numbers at two precisions hash alike: must be found
+		ms2 := []cty.Value{cty.NumberIntVal(7), cty.NumberFloatVal(0.5)}
+		c02HasElementRef(ctx, cty.SetVal(ms2), ms2, cty.MustParseNumberVal("7"))
+		c02HasElementRef(ctx, cty.SetVal(ms2), ms2, cty.MustParseNumberVal("0.5"))
+	}
 	// --- GetAttr, non-NFC names: correspondence ---------------------------------------------------------------
 	for si, sp := range c02Spellings {
 		raw, nfc := sp[0], sp[1]
